@@ -309,6 +309,12 @@ def _work(item):
     return ec.case_digest(ds), fails, stats
 
 
+def _work_err(item, msg):
+    case = item[0]
+    inp = {"scene": case[0], "history": [list(o) for o in case[1]], "step": len(case[1]) - 1}
+    return [0], [("driver-exception", inp, msg, "the operation sequence runs")], {}
+
+
 def gen_cases(ck):
     thorough = ck.tier == "thorough"
     rng = ck.rng
@@ -345,7 +351,7 @@ def gen_cases(ck):
         for e in ec.ops_for(kinds1, ["SetVisible", "MoveToGroup", "DeleteLayer"]):
             cases.append((1, [o0, ("ObsBbox", 2), e, ("ObsBbox", 2)]))
     n3x = len(cases) - n1 - n2
-    n3 = 40000 if thorough else 6000
+    n3 = 120000 if thorough else 12000
     for _ in range(n3):
         k = rng.choice([0, 1, 2, 3, 4, 5, 6])
         kinds = ec.kinds_after(ec.SCENES[k])
@@ -355,7 +361,7 @@ def gen_cases(ck):
             ops.append(o)
             kinds = ec.kinds_after([o], kinds)
         cases.append((k, ops))
-    nw = 3000 if thorough else 600
+    nw = 10000 if thorough else 1200
     for j in range(nw):
         k = rng.randrange(8)
         cases.append(ec.random_walk(rng, k, rng.choice([10, 25, 60]), FAM_WALK, guarded=ec.structure_guard if j % 4 else None))
@@ -377,7 +383,7 @@ def run():
     for k, v in sizes.items():
         ck.count("cases:" + k, v)
     items = [(c, (j % 5 == 0)) for j, c in enumerate(cases)]
-    res = ec.parallel_map(_work, items)
+    res = ec.parallel_map(ec.Guarded(_work, _work_err), items)
     cc = []
     for c, (dg, fails, stats) in zip(cases, res):
         cc.append((c, dg))
